@@ -15,7 +15,9 @@ Failure keys. The class of the failing INPUT (computed by the oracle's own walk,
     bounded:C13:chain-exception | chain-not-sequential
   any input: bounded:C13:fragment-mutates-input | filter-mutates-input | chain-mutates-old | patch-mutates-input
   patch, inputs where an array present in both documents differs: bounded:C13:patch-array (which of the two clauses fails
-  there depends on PYTHONHASHSEED: jsonpatch iterates sets of keys); other inputs: bounded:C13:patch-exception | patch-roundtrip
+  there depends on PYTHONHASHSEED: jsonpatch iterates sets of keys); inputs (arrays equal) where an object of old and an
+  object of new at another path are ==-equal but differ in a JSON type (1 / true / 1.0): bounded:C13:patch-moved-object-type-only;
+  other inputs: bounded:C13:patch-exception | patch-roundtrip
 """
 import copy
 import fnmatch
@@ -56,6 +58,9 @@ SCHEMA = ("obj", [
     ("s", S),
 ])
 SCALARS = [1, "x", None]
+# patch layer only: object members also take values that Python's == confuses but JSON distinguishes (1, true, 1.0 / 0, false).
+# Arrays keep SCALARS: a type-only change inside an array is outside this scope (jsonpatch compares array items with ==).
+TYPED_SCALARS = [1, True, 1.0, 0, False, "x", None]
 
 PATTERNS = [
     "/T", "/T/*", "/T/a|1", "/T/a|1/p", "/T/*/p", "/T/a?1/*", "/T/b*", "/T/b*/p",
@@ -79,16 +84,28 @@ def enum_docs(node, leaf_vals, arrays):
     return out
 
 
-def random_doc(rnd, node=SCHEMA, top=True):
+def random_doc(rnd, node=SCHEMA, top=True, scalars=SCALARS):
     kind = node[0]
     if kind == "scalar":
-        return rnd.choice(SCALARS)
+        return rnd.choice(scalars)
     if kind == "arr":
         return [rnd.choice(SCALARS) for _ in range(rnd.randint(0, 3))]
     d = {}
     for k, sub in node[1]:
         if rnd.random() < 0.72:
-            d[k] = random_doc(rnd, sub, False)
+            d[k] = random_doc(rnd, sub, False, scalars)
+    return d
+
+
+def typed_doc(v_deep, v_top, var):
+    """object members T/a|1/p and s from TYPED_SCALARS (or absent); the array is the same in every document of a variant"""
+    d = {"T": {"a|1": {"q/r": "x"}}, "m~n": {"p": 1}}
+    if var:
+        d["L"] = [1, "x", None]
+    if v_deep is not MISSING:
+        d["T"]["a|1"]["p"] = v_deep
+    if v_top is not MISSING:
+        d["s"] = v_top
     return d
 
 
@@ -250,6 +267,22 @@ def arrays_differ(a, b):
     return False
 
 
+def _objects(doc, path=()):
+    """all object values of a document with their paths"""
+    out = []
+    if isinstance(doc, dict):
+        out.append((path, doc))
+        for k, v in doc.items():
+            out.extend(_objects(v, path + (k,)))
+    return out
+
+
+def moved_type_only(old, new):
+    """an object of old and an object of new at ANOTHER path are equal for Python's == but differ in a JSON type (1/true/1.0):
+    jsonpatch itself pairs them into a 'move' that carries the wrongly typed value"""
+    return any(pa != pb and a == b and not jeq(a, b) for pa, a in _objects(old) for pb, b in _objects(new))
+
+
 def _selkeys(m):
     return {"/" + "/".join(str(x) for x in k): v for k, v in m.items()}
 
@@ -297,7 +330,7 @@ def check_fragment(old, frag, acl):
 
 
 def check_patch(old, new):
-    arr = arrays_differ(old, new)
+    cls = "array" if arrays_differ(old, new) else ("moved-object-type-only" if moved_type_only(old, new) else "")
     old0, new0 = copy.deepcopy(old), copy.deepcopy(new)
     nontrivial = not jeq(old0, new0) and old0 != {} and new0 != {}
     out = []
@@ -308,9 +341,9 @@ def check_patch(old, new):
         patch_bytes = jsontools.format_json(patch).encode()
         got = json.loads(jsontools.apply_patch(json.dumps(old).encode(), patch_bytes))
     except Exception as e:  # pylint: disable=broad-except
-        return [("bounded:C13:patch-array" if arr else "bounded:C13:patch-exception", "make_patch/apply_patch raises", new0, repr(e))], nontrivial
+        return [(("bounded:C13:patch-" + cls) if cls else "bounded:C13:patch-exception", "make_patch/apply_patch raises", new0, repr(e))], nontrivial
     if not jeq(got, new0):
-        out.append(("bounded:C13:patch-array" if arr else "bounded:C13:patch-roundtrip", "apply_patch(old, make_patch(old, new)) != new (patch: %s)" % json.dumps(patch),
+        out.append((("bounded:C13:patch-" + cls) if cls else "bounded:C13:patch-roundtrip", "apply_patch(old, make_patch(old, new)) != new (patch: %s)" % json.dumps(patch),
                     new0, got))
     if not jeq(old, old0) or not jeq(new, new0):
         out.append(("bounded:C13:patch-mutates-input", "make_patch mutates its input", dict(old=old0, new=new0), dict(old=old, new=new)))
@@ -443,6 +476,25 @@ def cases(tier, seed, part, nparts):
         if j % nparts == part:
             yield None, c
 
+    # layer H: patch, JSON-type-only changes of object members (1 / true / 1.0, 0 / false): all pairs of the 8 x 8 documents
+    # with T/a|1/p and s in TYPED_SCALARS + absent, with and without an (unchanged) array; plus random typed documents
+    opts = TYPED_SCALARS + [MISSING]
+    nd = len(opts) * len(opts)
+    total = 2 * nd * nd
+    for idx in _strided(total, 1, part, nparts):
+        var, rest = divmod(idx, nd * nd)
+        i, j = divmod(rest, nd)
+        yield "H%x" % idx, dict(kind="patch", old=typed_doc(opts[i // len(opts)], opts[i % len(opts)], var),
+                                new=typed_doc(opts[j // len(opts)], opts[j % len(opts)], var))
+    n = 8000 if quick else 100000
+    for j in range(n):
+        old = random_doc(rnd, scalars=TYPED_SCALARS)
+        new = random_doc(rnd, scalars=TYPED_SCALARS)
+        if "L" in old and "L" in new:
+            new["L"] = copy.deepcopy(old["L"])      # no changes inside arrays here (layers C..E do that with SCALARS)
+        if j % nparts == part:
+            yield None, dict(kind="patch", old=old, new=new)
+
     # layer F: filter, all shapes x all pointer lists; plus random
     total = na * no
     for idx in _strided(total, 5 if quick else 1, part, nparts):
@@ -501,7 +553,9 @@ def run(tier="quick", seed=0, part=0, nparts=1):
         evaluations=ev, nontrivial=sorted(nontrivial), failures=failures, samples=samples,
         rule="one schema {T:{'a|1':{p,'q/r'},'b*':{p}},'m~n':{p},L:[<=3],s}, scalars {1,'x',null}; %d pointer lists (1..2 of %d glob "
              "patterns, ordered). fragment: every 1/%d-th of (all 480 shapes)^2 x all lists + random full-valued docs; patch: "
-             "shapes^2 (2 value variants, 1/%d), all arrays^2 x 2 surroundings, random; filter: shapes x lists (1/%d) + random; "
+             "shapes^2 (2 value variants, 1/%d), all arrays^2 x 2 surroundings, random, and all pairs of 64 documents whose object "
+             "members T/a|1/p and s range over {1,true,1.0,0,false,'x',null,absent} (JSON-type-strict comparison; arrays "
+             "unchanged there) + random typed documents; filter: shapes x lists (1/%d) + random; "
              "chain: random 2..3 generators over 1..2 files, safe/unsafe. Patterns never select array elements (arrays are "
              "values). non-trivial: fragment = something "
              "selected and result differs from both old and fragment; patch = old != new, both non-empty; filter = selected, "
